@@ -13,6 +13,7 @@ PLAN = {
                 slices=["comp"], ref="§7 C10"),
     "C09": dict(families=[("comp", 30, 300)], oracle=lambda h: [f for f in T.oracle_components(h) if f[0] == "C09"],
                 slices=["comp"], ref="§7 C09"),
+    "C16": dict(families=[("skin", 30, 300)], oracle=lambda h: T.skin_cases(h)[1], slices=["skin"], ref="§7 C16"),
     "C08": dict(families=[("fault", 96, 768)], oracle=lambda h: T.oracle_fault(h), slices=["fault"], ref="§7 C08"),
 }
 
@@ -98,7 +99,11 @@ def check(prop_id, tier, seed, replay=None):
                 # ask the model for its verdict under this ordering; observed is filled in below
                 lines.append("fault %s %s %s %s %s" % (inst, g, world, steps, "ok"))
                 fault_groups.setdefault(h.id, {"h": h, "panicked": panicked, "insts": []})["insts"].append(inst)
-        for kind in [k for k in plan["slices"] if k != "fault"]:
+        if "skin" in plan["slices"]:
+            for l in T.skin_cases(h)[0]:
+                inst_of[l.split(" ")[1]] = (h, {})
+                lines.append(l)
+        for kind in [k for k in plan["slices"] if k not in ("fault", "skin")]:
             for inst, ls, meta in slice_lines(h, kind, flags):
                 if ls is None:
                     skipped += 1
